@@ -24,7 +24,7 @@ def gen_sheet(rnd, budget=10):
 
     def comment():
         if rnd.random() < .2:
-            emit('/* ' + rnd.choice(['c', 'a { b: c; }', '}', '{', 'x: y;', '"', "it's"]) + ' */'); ws()
+            emit(rnd.choice(['/* ', '/** ', '/*', '/***']) + rnd.choice(['c', 'a { b: c; }', '}', '{', 'x: y;', '"', "it's", 'a * b', 'n **', '']) + rnd.choice([' */', ' **/', '*/', '***/'])); ws()
 
     def decl():
         d = {'kind': 'decl'}
@@ -42,7 +42,8 @@ def gen_sheet(rnd, budget=10):
     def rule(depth):
         r = {'kind': 'rule', 'kids': []}
         sel = rnd.choice(['a', '.b', '#c', 'a:hover', 'x::before', 'ul > li', '@media (min-width: 100px)', '@media screen and (max-width:100px)', 'a[href="{"]', "a[t=';']",
-                          '&:not(.x)', '.a, .b', 'input[type=text]:focus', '@supports (display: grid)', 'h1 + p', '&-suffix', '@include foo'])
+                          '&:not(.x)', '.a, .b', 'input[type=text]:focus', '@supports (display: grid)', 'h1 + p', '&-suffix', '@include foo',
+                          'a:hover, a:focus', 'li:first-child:hover', 'a:not(.x):hover', 'p::first-line', 'a:hover::after', 'x:y:z'])
         r['start'] = pos[0]; emit(sel); r['send'] = pos[0]
         emit(rnd.choice(['', ' ', ' ', '\n']))
         r['brace'] = pos[0]; emit('{')
